@@ -70,6 +70,7 @@ func main() {
 			"non-trivial = distinct (program, timing platform) pair with at least one memory instruction and at least two wavefronts whose comparison was carried out to the end",
 		Assumptions: []string{
 			"generated programs are race-free by construction (every work-item owns its output slots and its LDS slot; LDS exchanges are fenced by s_barrier on both sides; loaded registers are consumed only after s_waitcnt covers them; non-zero vmcnt is relied upon for in-order return only for CDNA3 global_* loads)",
+			"operations a kernel leaves un-waited before s_endpgm (scalar / vector loads into registers that were dumped before, a store to a dword nothing reads, an LDS write) are legal: s_endpgm has to keep the wavefront's registers until they have returned; every kernel writes long-lived values into low and high SGPRs/VGPRs first and dumps them last, so that anything a retired wavefront left in flight shows in a recycled register slot",
 			"a program whose two emulation runs differ, or that emulation cannot run, is a generator / workload problem (inconclusive), not a finding",
 			"features for which the canonical battery reproduces an open keyed finding are not used by seeded programs of the same platform pair (so that one finding does not hide the rest); the canonical battery keeps them",
 			"deadlock = engine not running, not kicked and no application progress over a long run of observations; the wall-clock watchdog only yields inconclusive",
@@ -138,6 +139,18 @@ type job struct {
 	scope   string // probe:<f> | variant:<name> | seeded | shipped
 }
 
+// smallVariants: the platform variants with few compute units, on which
+// wavefront slots are recycled by programs of moderate size.
+func smallVariants(p pairDef) []PlatSpec {
+	var out []PlatSpec
+	for _, v := range variants(p) {
+		if v.Knobs != nil && v.Knobs.CUPerSA*v.Knobs.NumSA <= 4 {
+			out = append(out, v)
+		}
+	}
+	return out
+}
+
 func hash64(s string) uint64 {
 	h := fnv.New64a()
 	h.Write([]byte(s))
@@ -166,6 +179,20 @@ func probeSpec(arch, f string) ProgSpec {
 		sp := ProgSpec{ID: "probe-" + arch + "-" + f, Arch: arch, Seed: hash64("C02/probe/" + f), Allow: append(allow, "ld_x4", "st_x4"), Force: force, Probe: f,
 			Geo: &Launch{Grid: [3]uint32{1024, 1, 1}, WG: [3]uint16{1024, 1, 1}}}
 		return sp
+	case "slot_recycle", "slot_recycle_small":
+		// lean kernels, far more one-wavefront work-groups than wavefront
+		// slots (one wavefront per SIMD: 256 / 512 declared VGPRs), dead
+		// un-waited operations right before s_endpgm
+		n, wg, tail := 1100, 4, []string{"smem"}
+		if f == "slot_recycle_small" {
+			n, wg, tail = 96, 16, []string{"smem", "flat_ld", "flat_st", "lds"}
+		}
+		decl := 256
+		if arch == "cdna3" {
+			decl = 512
+		}
+		return ProgSpec{ID: "probe-" + arch + "-" + f, Arch: arch, Seed: hash64("C02/probe/" + f), Allow: allow, Probe: f, Lean: true,
+			Geo: &Launch{Grid: [3]uint32{uint32(n * wg), 1, 1}, WG: [3]uint16{uint16(wg), 1, 1}}, DeclVGPR: decl, Tail: tail, Script: []string{"spin 8"}}
 	case "waw", "waw_waitcnt":
 		allow = append(allow, "st_x2", "st_x4", "loop_uniform")
 	case "xkernel":
@@ -250,7 +277,14 @@ func (o *orch) run() {
 				continue // base features: part of every probe
 			}
 			sp := probeSpec(p.Arch, f)
-			jobsA = append(jobsA, &job{id: sp.ID, pair: p, prog: &sp, timing: []PlatSpec{p.Timing}, scope: "probe:" + f, alts: probeAlts(p.Arch, f)})
+			ts := []PlatSpec{p.Timing}
+			if f == "slot_recycle_small" || f == "oversub" {
+				ts = smallVariants(p)
+				if f == "oversub" {
+					ts = append([]PlatSpec{p.Timing}, ts...)
+				}
+			}
+			jobsA = append(jobsA, &job{id: sp.ID, pair: p, prog: &sp, timing: ts, scope: "probe:" + f, alts: probeAlts(p.Arch, f)})
 		}
 		for k := 0; k < c.N(1, 2); k++ {
 			sp := canonMix(p.Arch, k)
@@ -327,6 +361,17 @@ func (o *orch) run() {
 					ts = append(ts, vs[i%len(vs)], vs[(i+3)%len(vs)])
 				} else {
 					ts = append(ts, vs[i%len(vs)])
+				}
+			}
+			if pg, err := BuildProgram(sp); err == nil && pg.hasFeature("oversub") {
+				for _, v := range smallVariants(p) {
+					dup := false
+					for _, t := range ts {
+						dup = dup || t.Name == v.Name
+					}
+					if _, off := o.varOff[pk][v.Name]; !dup && !off {
+						ts = append(ts, v)
+					}
 				}
 			}
 			jobsB = append(jobsB, &job{id: sp.ID, pair: p, prog: &sp, timing: ts, scope: "seeded"})
